@@ -330,6 +330,35 @@ func Main(a int) int {
 `, Fn: "Main", Args: []Arg{{T: "int", I: 7}}, Res: "int", GoWant: "i:12"})
 }
 
+func init() {
+	findings = append(findings, finding{Key: kNestedRecov,
+		What: "recover() in a function literal deferred by a function that is itself running as (or called from) a deferred call takes the panic of the outer frame: Go returns nil there (the literal is run by the normal return of the inner function, not by the panic sequence) and the outer panic goes on; the compiled code keeps the pending exception in one static slot shared by all frames (codegen.go convertBuiltin recover / processDefers), so the inner recover() clears it and nothing is thrown again",
+		Src: `package foo
+
+var g int
+
+func f1() {
+	defer func() {
+		if r := recover(); r != nil {
+			g = 1
+		}
+	}()
+}
+
+func f(a int) int {
+	defer f1()
+	if a > 0 {
+		panic("x")
+	}
+	return 5
+}
+
+func Main(a int) int {
+	return f(a) + 10
+}
+`, Fn: "Main", Args: []Arg{{T: "int", I: 1}}, Res: "int", GoWant: "PANIC"})
+}
+
 // runFinding executes the neo-go side of a reproduction and renders the outcome in the notation of the check.
 func runFinding(f finding) string {
 	nf, di, err, crash := compileProg("finding.go", f.Src)
